@@ -7,6 +7,7 @@ claimed = {
  "C19": ("each Put*/Read* primitive executed symbolically from an arbitrary encoder/decoder state (bounded buffer sizes), alignment over the full 31-bit base/offset domain, typed write-then-read sequences up to 3 (quick) / 4 (thorough) operations, Header.Decode on every length 0..12 with real defer/recover semantics", "4 C19"),
 }
 claimed["C15"] = ("registry: every registered name x mask x three spellings executed on the real lookup and compared with a reference width table (concrete enumeration, exhaustive over the registry); pack/unpack inverse decided by SMT for all 2^32 header words (loop-free, full width); independence by exact alias analysis of the concrete heap plus symbolic overwrite of every field", "4 C15")
+claimed["C08"] = ("every packet-header decoder executed symbolically on an arbitrary buffer of every length up to the per-decoder bound (all 2^(8N) contents decided by SMT): no feasible path panics, every library loop exits within N+2 iterations (unwinding assertion), no single allocation exceeds 64 KiB + 16 N", "4 C08")
 pending = {}
 allp = [json.loads(l)["id"] for l in open("/verif/properties.jsonl")]
 TRUST = "go/ssa lowering, gc compiler, Go runtime, SMT solvers (z3 4.8.12 decides; z3 5.1.0 and cvc5 1.0 cross-check sampled verdict queries), the environment stubs listed in each evidence file; nothing outside the per-harness bounds in DESIGN.md §4"
